@@ -42,6 +42,8 @@ type Env struct {
 	steps    int
 	sample   any
 	nontriv  bool
+	// inconclusive, when set, says why this run decides nothing (never a violation)
+	inconclusive string
 }
 
 // Event appends one line to the canonical history. Everything written here must be a function of
@@ -155,6 +157,7 @@ type runRec struct {
 	ShrunkLen  int            `json:"shrunk_len,omitempty"`
 	ShrinkRuns int            `json:"shrink_runs,omitempty"`
 	Nontrivial bool           `json:"nontrivial,omitempty"`
+	Inconcl    string         `json:"inconclusive,omitempty"`
 }
 
 // ReplayFile is the on-disk form of a (minimised) failing run.
@@ -280,7 +283,15 @@ func execOne(t *testing.T, sc *Scenario, seed uint64, tp *Tape, verbose bool) *E
 		defer func() {
 			if r := recover(); r != nil {
 				st := string(debug.Stack())
-				e.Fail("no-panic", "panic:"+normalizePanic(fmt.Sprint(r)), "panic: %v\n%s", r, st)
+				msg := fmt.Sprint(r)
+				if strings.HasPrefix(msg, "deadlock: main bubble goroutine has exited but blocked goroutines remain") && e.viol == nil {
+					// The scenario finished and passed its oracles, but a goroutine of the system under test was
+					// still blocked when the bubble closed (a shutdown-order race decided by the real scheduler,
+					// not by the tape). Not a statement about the property: counted as inconclusive.
+					e.inconclusive = "bubble-closed-with-blocked-goroutines"
+					return
+				}
+				e.Fail("no-panic", "panic:"+normalizePanic(msg), "panic: %v\n%s", r, st)
 			}
 		}()
 		sc.Run(e, tp)
@@ -397,7 +408,7 @@ func Main(t *testing.T, property string, scs []Scenario) {
 			rec := &runRec{
 				T: "run", Seed: seed, Scenario: sc.Name, Digest: hex.EncodeToString(e.h[:8]), Probes: e.probes,
 				SimNs: e.simNanos, Steps: e.steps, WallUs: time.Since(t0).Microseconds(), TapeLen: tp.Pos(),
-				Nontrivial: e.nontriv, Viol: e.viol,
+				Nontrivial: e.nontriv, Viol: e.viol, Inconcl: e.inconclusive,
 			}
 			if samples < 3 && e.sample != nil {
 				rec.Sample = e.sample
